@@ -348,7 +348,20 @@ class TracebackInfo:
         :func:`traceback.format_stack`.
         """
         ret = 'Traceback (most recent call last):\n'
-        ret += ''.join([f.tb_frame_str() for f in self.frames])
+        # like the traceback module, show a frame repeated in a row
+        # (recursion) three times and then only count it
+        last, count = None, 0
+        for f in list(self.frames) + [None]:
+            cur = f and (f.module_path, f.lineno, f.func_name)
+            if cur is not None and cur == last:
+                count += 1
+            else:
+                if count > 3:
+                    ret += ('  [Previous line repeated %d more time%s]\n'
+                            % (count - 3, 's' if count - 3 > 1 else ''))
+                last, count = cur, 1
+            if f is not None and count <= 3:
+                ret += f.tb_frame_str()
         return ret
 
 
